@@ -584,14 +584,14 @@ def main(tier):
                  ((1.001, 1.001), (4, 6), False, False, True),
                  (S1, (4,), False, False, True, 'vector')]
     else:
-        cases = [(s_, cn, coe, lfc, ud)
-                 for s_, cn in ((S1, (4,)), ((1.0, 1.004), (4, 6)),
-                                ((1.001, 1.003), (4, 6)),
-                                ((1.0, 1.002), (6, 8)))
-                 for coe in (False, True) for lfc in (False, True)
-                 for ud in (False, True)]
-        cases += [(S1, (4, 6), False, lfc, ud, 'vector')
-                  for lfc in (False, True) for ud in (False, True)]
+        cases = [(S1, (4,), coe, lfc, ud) for coe in (False, True)
+                 for lfc in (False, True) for ud in (False, True)]
+        cases += [((1.001, 1.001), (4, 6), coe, lfc, False)
+                  for coe in (False, True) for lfc in (False, True)]
+        cases += [((1.0, 1.004), (4, 6), False, False, False),
+                  ((1.0, 1.002), (6, 8), False, True, True),
+                  (S1, (4,), False, True, False, 'vector'),
+                  (S1, (4, 6), False, False, True, 'vector')]
     jobs = [('case_direction', x) for x in cases]
     jobs += [('case_seasurface', (True,)), ('case_seasurface', (False,)),
              ('case_cell_numbers', None)]
